@@ -17,6 +17,10 @@ CONSTANTS
  DevFetchAclOnRequestName = FALSE
  DevStaleOwnedOnSessionReplace = FALSE
  DevLeaseErrMisindexed = FALSE
+ MidOn = FALSE
+ DevAclCacheNoAction = FALSE
+ DevLateAcquireAfterRelease = FALSE
+ DevReacquireUnconditional = FALSE
 INIT Init
 NEXT Next
 INVARIANTS C24_NoEffect C24_AuthError C24_NoLeak
